@@ -34,7 +34,10 @@ static int kid(const char *s) {
     if (!s) return 0;
     /* keys end in "#<id>" */
     const char *h = strrchr(s, '#');
-    if (!h) return -1;
+    if (!h) {            /* the equal-hash pair carries no suffix */
+        for (int j = 1; j <= NK && j <= 64; j++) if (!strcmp(s, kn[j])) return j;
+        return -1;
+    }
     int k = atoi(h + 1);
     if (k < 1 || k > NK || strcmp(s, kn[k])) return -1;
     return k;
@@ -86,6 +89,21 @@ int main(int argc, char **argv) {
             kn[k] = vh_malloc(48);
             snprintf(kn[k], 48, "%s#%d", (k % 3 == 0) ? "" : (k % 3 == 1) ? "key" : "another/longer key with spaces", k);
             khome[k] = (int) (qhashmurmur3_32(kn[k], strlen(kn[k])) % (uint32_t) realR);
+        }
+    }
+    /* two keys whose 32-bit murmur hashes are EQUAL (the table keeps the hash next to the name and compares it first): the
+     * first two keys sharing the pair's home slot are named so */
+    {
+        static const char *PAIR[2] = {"c178039", "c290156"};
+        uint32_t ph = qhashmurmur3_32(PAIR[0], strlen(PAIR[0]));
+        if (ph == qhashmurmur3_32(PAIR[1], strlen(PAIR[1]))) {
+            int home = (int) (ph % (uint32_t) realR), first = 0;
+            if (!strcmp(argv[5], "-") && NK >= 2) { khome[1] = khome[2] = home; }       /* random histories: keys 1 and 2 */
+            for (int k = 1; k <= NK; k++) {
+                if (khome[k] != home) continue;
+                if (!first) first = k;
+                else { strcpy(kn[first], PAIR[0]); strcpy(kn[k], PAIR[1]); break; }
+            }
         }
     }
     FILE *in = fopen(argv[1], "r");
